@@ -214,6 +214,7 @@ type wcfg struct {
 	User, Pass   string
 	MinimalTags  bool // Opts.Tags carries only MsgType and MsgSeqNum (the two the library insists on)
 	SeqReset     bool // the optional SequenceReset builder is configured
+	LogonTimeout time.Duration // acceptor's LogonSettings.LogonTimeout (default 30 s)
 }
 
 type world struct {
@@ -288,8 +289,12 @@ func newWorld(c wcfg) *world {
 	} else {
 		w.self, w.peer = "SRV", "CLI"
 		w.h = simplefixgo.NewAcceptorHandler(context.Background(), "35", c.Buf)
+		lt := 30 * time.Second
+		if c.LogonTimeout > 0 {
+			lt = c.LogonTimeout
+		}
 		w.s, err = session.NewAcceptorSession(optsFor(c), w.h, &session.LogonSettings{
-			LogonTimeout: 30 * time.Second, HeartBtLimits: &session.IntLimits{Min: c.HbMin, Max: c.HbMax}, CloseTimeout: c.CloseTimeout,
+			LogonTimeout: lt, HeartBtLimits: &session.IntLimits{Min: c.HbMin, Max: c.HbMax}, CloseTimeout: c.CloseTimeout,
 		}, func(r *session.LogonSettings) error {
 			w.lastLogonCB = r
 			if c.RefuseLogon != nil {
